@@ -113,7 +113,7 @@ def finish_t(res, assumptions):
 
 
 def c01(res):
-    T.run_tv(res, {"F1", "F2", "F3", "F4", "F8", "F9", "F11", "F12", "F12E"}, {"value"},
+    T.run_tv(res, {"F1", "F2", "F3", "F4", "F5", "F6", "F6R", "F7", "F7R", "F8", "F9", "F10", "F11", "F12", "F12E", "F13"}, {"value"},
              note="returned value of the emitted code == reference value for all arguments on which the reference is defined")
     finish_t(res, T.TRUST_T + ["inputs on which integer division is undefined are excluded here and decided under C10",
                                "float arithmetic compared structurally (same IEEE operation on the same operands), NaNs identified"])
@@ -275,7 +275,7 @@ def replay(pid, path):
         d = tempfile.mkdtemp(dir=BUILD)
         script = os.path.join(d, "replay.roto")
         open(script, "w").write(obj["source"])
-        real = TV.run_real(script, "main", obj["signature"], obj["args"], child=True)
+        real = TV.run_real(script, "main", obj["signature"], obj["args"], child=True, leakcheck=(obj.get("kind") == "ledger"))
         print("real JIT run:", json.dumps(real)[:600])
         again = False
         if obj.get("engine") == "mir":
